@@ -202,6 +202,19 @@ func coldOnce(seed uint64) (bool, string) {
 	}
 	n := r.I64()
 	ip := int32(r.U64())
+	// a share of the processes asks for the boundary values first: what a zero-valued cache or
+	// an unset "initialised" flag would answer for (address 0, number 0, the empty input)
+	switch seed % 4 {
+	case 1:
+		ip, n = 0, 0
+	case 2:
+		ip, n, buf = 0, 0, buf[:0]
+	case 3:
+		ip, n = -1, -1
+		for i := range buf {
+			buf[i] = 0
+		}
+	}
 	type res struct {
 		h            int32
 		h64, v2a, vb int64
@@ -257,7 +270,15 @@ func coldOnce(seed uint64) (bool, string) {
 	}
 	atomic.StoreInt32(&start, 1)
 	wg.Wait()
-	want := res{int32(crc32.ChecksumIEEE(buf)), refHash64(buf), refHash64v2(buf), refHash64v2(buf), hexa32.ToString32(n), iputil.ToStringInt(ip)}
+	// references that do not touch the library (the IPv4 text from package net; Hexa32 has no
+	// independent encoder here, so its first answer is compared with the library's later one and,
+	// for 0, with the literal)
+	ipText := net.IPv4(byte(uint32(ip)>>24), byte(uint32(ip)>>16), byte(uint32(ip)>>8), byte(uint32(ip))).String()
+	s32 := hexa32.ToString32(n)
+	if n == 0 {
+		s32 = "0"
+	}
+	want := res{int32(crc32.ChecksumIEEE(buf)), refHash64(buf), refHash64v2(buf), refHash64v2(buf), s32, ipText}
 	for g, o := range out {
 		if o != want {
 			return false, fmt.Sprintf("goroutine %d of %d got %+v, want %+v", g, G, o, want)
